@@ -38,6 +38,12 @@ func (o *Outcome) Views() []*View {
 			v.OwnUps = append(v.OwnUps, o.Hist.Ups[ui])
 		}
 		switch {
+		case r.Cancelled:
+			// the client went away: whatever it would have received is not observed
+			v.Kind = "cancelled"
+			if r.Res == nil || r.ReturnSeq < 0 {
+				v.Kind = "pending"
+			}
 		case r.Dead:
 			v.Kind = "dead"
 		case r.Res == nil || r.ReturnSeq < 0:
